@@ -16,6 +16,7 @@ import (
 	"flag"
 	"fmt"
 	"go/ast"
+	"go/constant"
 	"go/printer"
 	"go/token"
 	"go/types"
@@ -38,6 +39,7 @@ type report struct {
 	ULIDSites      []string       `json:"ulid_sites"`
 	YieldSites     int            `json:"yield_sites"`
 	SyncSites      []string       `json:"sync_sites"`
+	HashSites      []string       `json:"hash_sites"`
 	Uncontrolled   []string       `json:"uncontrolled_sources"`
 	PackagesFull   []string       `json:"packages_full"`
 	PackagesMapped []string       `json:"packages_maponly"`
@@ -143,7 +145,7 @@ func main() {
 			}
 			// drop imports that became unused through the rewrites
 			for _, imp := range []string{"github.com/oklog/ulid/v2", "maps", "golang.org/x/exp/maps", "os", "time", "runtime", "context", "sync"} {
-				if !astutil.UsesImport(f, imp) {
+				if !usesImport(p, f, imp) {
 					astutil.DeleteImport(p.Fset, f, imp)
 				}
 			}
@@ -171,6 +173,7 @@ func main() {
 	rep.Counts["ulid"] = len(rep.ULIDSites)
 	rep.Counts["yield"] = rep.YieldSites
 	rep.Counts["sync"] = len(rep.SyncSites)
+	rep.Counts["hash"] = len(rep.HashSites)
 	rep.Counts["uncontrolled"] = len(rep.Uncontrolled)
 	if *flagReport != "" {
 		b, _ := json.MarshalIndent(rep, "", " ")
@@ -181,6 +184,27 @@ func main() {
 	}
 	fmt.Printf("instrument: %d files, %d map ranges (%d uncontrolled), %d ulid, %d yields, %d sync, %d uncontrolled sources\n",
 		rep.Files, len(rep.MapRangeSites), len(rep.MapRangeAny), len(rep.ULIDSites), rep.YieldSites, len(rep.SyncSites), len(rep.Uncontrolled))
+}
+
+// usesImport reports whether the (rewritten) file still refers to the package
+// imported from path. astutil.UsesImport guesses the package name from the last
+// path element ("v2" for github.com/oklog/ulid/v2), so the references are
+// resolved through the type information instead: every surviving qualified
+// identifier of the original file is still in Uses, and the nodes the
+// instrumenter creates only ever refer to simrt.
+func usesImport(p *packages.Package, f *ast.File, path string) bool {
+	used := false
+	ast.Inspect(f, func(n ast.Node) bool {
+		if sel, ok := n.(*ast.SelectorExpr); ok {
+			if id, ok := sel.X.(*ast.Ident); ok {
+				if pn, ok := p.TypesInfo.Uses[id].(*types.PkgName); ok && pn.Imported().Path() == path {
+					used = true
+				}
+			}
+		}
+		return !used
+	})
+	return used
 }
 
 // pruneComments keeps only comments that cannot be displaced by inserted
@@ -231,11 +255,12 @@ type instr struct {
 	rep     *report
 	full    bool
 	changed bool
-	fn      []string // enclosing function name stack
+	fn      []string          // enclosing function name stack
 	comm    map[ast.Node]bool // communication clauses of select statements (and their receive expressions): left to the select
 	nsel    int
 	timers  bool // a timer construct was rewritten in this file
 	preFn   astutil.ApplyFunc
+	inConst int // nesting depth of constant declarations (their initialisers must stay constant)
 }
 
 func (in *instr) site(kind string, pos token.Pos, extra string) string {
@@ -283,6 +308,18 @@ func (in *instr) run() bool {
 	// that site strings are computed from original positions).
 	in.preFn = func(c *astutil.Cursor) bool {
 		switch n := c.Node().(type) {
+		case *ast.GenDecl:
+			if n.Tok == token.CONST {
+				in.inConst++
+			}
+		case *ast.BasicLit:
+			if n.Kind == token.INT {
+				in.weakPrime(c, n)
+			}
+		case *ast.Ident:
+			if _, isConst := info.Uses[n].(*types.Const); isConst {
+				in.weakPrime(c, n)
+			}
 		case *ast.FuncDecl:
 			name := n.Name.Name
 			if n.Recv != nil && len(n.Recv.List) > 0 {
@@ -375,8 +412,13 @@ func (in *instr) run() bool {
 		return true
 	}
 	astutil.Apply(in.file, in.preFn, func(c *astutil.Cursor) bool {
-		if _, ok := c.Node().(*ast.FuncDecl); ok {
+		switch n := c.Node().(type) {
+		case *ast.FuncDecl:
 			in.fn = in.fn[:len(in.fn)-1]
+		case *ast.GenDecl:
+			if n.Tok == token.CONST {
+				in.inConst--
+			}
 		}
 		return true
 	})
@@ -475,6 +517,47 @@ func (in *instr) run() bool {
 		}
 	}
 	return in.changed
+}
+
+// weakPrime puts the multiplier of a hand-written FNV loop behind the weak-hash
+// seam: an integer constant expression with the value of the 32- or 64-bit FNV
+// prime, used inside a function body where a non-constant may stand.
+func (in *instr) weakPrime(c *astutil.Cursor, e ast.Expr) {
+	if !in.full || len(in.fn) == 0 || in.inConst > 0 {
+		return
+	}
+	tv, ok := in.pkg.TypesInfo.Types[e]
+	if !ok || tv.Value == nil || tv.Value.Kind() != constant.Int {
+		return
+	}
+	v, exact := constant.Uint64Val(tv.Value)
+	if !exact || (v != 16777619 && v != 1099511628211) {
+		return
+	}
+	b, ok := tv.Type.Underlying().(*types.Basic)
+	if !ok || b.Info()&types.IsInteger == 0 || b.Info()&types.IsUntyped != 0 {
+		return
+	}
+	switch c.Parent().(type) {
+	case *ast.BinaryExpr, *ast.AssignStmt, *ast.ParenExpr, *ast.CallExpr:
+	default:
+		return // array lengths, case labels, composite literal keys ...: left alone
+	}
+	if p, ok := c.Parent().(*ast.CallExpr); ok && p.Fun == e {
+		return
+	}
+	name := "WeakPrime32"
+	if v == 1099511628211 {
+		name = "WeakPrime64"
+	}
+	site := in.site("hash", e.Pos(), "fnv-prime")
+	in.rep.HashSites = append(in.rep.HashSites, site)
+	var typ ast.Expr = ast.NewIdent(b.Name())
+	if n, ok := tv.Type.(*types.Named); ok && n.Obj().Pkg() == in.pkg.Types {
+		typ = ast.NewIdent(n.Obj().Name())
+	}
+	c.Replace(&ast.CallExpr{Fun: typ, Args: []ast.Expr{simCall(name, strLit(site))}})
+	in.changed = true
 }
 
 func isYieldCall(es *ast.ExprStmt) bool {
@@ -584,6 +667,27 @@ func (in *instr) rewriteCall(c *astutil.Cursor, call *ast.CallExpr) {
 		return
 	}
 	full := fn.FullName()
+	if in.full && strings.HasPrefix(fn.Pkg().Path(), "hash") {
+		// non-cryptographic hashes: results go through the weak-hash seam
+		weak := ""
+		if sig, ok := fn.Type().(*types.Signature); ok && sig.Results().Len() == 1 {
+			if b, ok := sig.Results().At(0).Type().Underlying().(*types.Basic); ok {
+				switch {
+				case b.Kind() == types.Uint32 && (fn.Name() == "Sum32" || fn.Name() == "ChecksumIEEE" || fn.Name() == "Checksum" || fn.Name() == "Update"):
+					weak = "Weak32"
+				case b.Kind() == types.Uint64 && (fn.Name() == "Sum64" || fn.Name() == "Checksum" || fn.Name() == "Update" || fn.Name() == "String" || fn.Name() == "Bytes" || fn.Name() == "Comparable"):
+					weak = "Weak64"
+				}
+			}
+		}
+		if weak != "" {
+			site := in.site("hash", call.Pos(), full)
+			in.rep.HashSites = append(in.rep.HashSites, site)
+			c.Replace(simCall(weak, call, strLit(site)))
+			in.changed = true
+		}
+		return
+	}
 	switch full {
 	case "github.com/oklog/ulid/v2.Make":
 		site := in.site("ulid", call.Pos(), "")
